@@ -943,4 +943,150 @@ theorem exRun_indexed (dedup : Bool) : ∃ o, run (exRun true dedup ["c1", "c1,c
       ex_stats, ex_stats_nil, totalStats]
     simp [exVars, phasedOf, considered, blocksOf, dedupIds, blockList, idLe]
 
+/-! ### the order of the queue does not depend on the sorting routine -/
+
+/-- the blocks of the queue are pairwise disjoint as sets of positions -/
+def QDisj (q : List Block) : Prop := q.Pairwise (fun a b => ∀ m ∈ a, ∀ n ∈ b, m.1 ≠ n.1)
+
+theorem qdisj_perm {q q' : List Block} (h : q.Perm q') (hd : QDisj q) : QDisj q' :=
+  hd.perm h (by intro a b hab m hm n hn e; exact hab n hn m hm e.symm)
+
+/-- in a queue of non-empty, pairwise disjoint blocks the leftmost position identifies the block -/
+theorem loInj_of_disj : ∀ (q : List Block), QNonempty q → QDisj q → ∀ a ∈ q, ∀ b ∈ q, lo a = lo b → a = b := by
+  intro q
+  induction q with
+  | nil => intro _ _ a ha; cases ha
+  | cons x xs ih =>
+    intro hne hd a ha b hb hab
+    have hd' := List.pairwise_cons.mp hd
+    have hne' : QNonempty xs := fun y hy => hne y (List.mem_cons_of_mem _ hy)
+    have clash : ∀ y ∈ xs, lo x ≠ lo y := by
+      intro y hy e
+      obtain ⟨m, hm, hme⟩ := lo_mem x (hne x (List.mem_cons_self ..))
+      obtain ⟨n, hn, hne2⟩ := lo_mem y (hne y (List.mem_cons_of_mem _ hy))
+      exact hd'.1 y hy m hm n hn (by omega)
+    rcases List.mem_cons.mp ha with rfl | ha' <;> rcases List.mem_cons.mp hb with rfl | hb'
+    · rfl
+    · exact absurd hab (clash b hb')
+    · exact absurd hab.symm (clash a ha')
+    · exact ih hne' hd'.2 a ha' b hb' hab
+
+/-- with distinct leftmost positions there is only one sorted arrangement -/
+theorem sort_unique {q l : List Block} (hp : l.Perm q) (hs : QSorted l) (hne : QNonempty q) (hd : QDisj q) :
+    l = sortBlocks q := by
+  have hinj := loInj_of_disj q hne hd
+  apply List.Perm.eq_of_pairwise (le := fun a b => lo a ≤ lo b) ?_ hs (sortBlocks_sorted q)
+    (hp.trans (sortBlocks_perm q).symm)
+  intro a b ha hb h1 h2
+  exact hinj a (hp.mem_iff.mp ha) b ((sortBlocks_perm q).mem_iff.mp hb) (by omega)
+
+theorem nextQueue_disj {b nxt : Block} {rest : List Block} (hd : QDisj (b :: nxt :: rest)) :
+    QDisj (nextQueue b nxt rest) ∧ QDisj ((splitBlock b (lo nxt) (hi nxt)).2 :: nxt :: rest) := by
+  have h1 := List.pairwise_cons.mp hd
+  have hright : QDisj ((splitBlock b (lo nxt) (hi nxt)).2 :: nxt :: rest) := by
+    refine List.pairwise_cons.mpr ⟨?_, h1.2⟩
+    intro y hy m hm n hn
+    exact h1.1 y hy m (List.mem_filter.mp hm).1 n hn
+  refine ⟨?_, hright⟩
+  unfold nextQueue
+  split
+  · exact qdisj_perm (sortBlocks_perm _).symm hright
+  · exact h1.2
+
+theorem loopG_eq (sort : List Block → List Block) (hsort : IsSort sort) : ∀ (n : Nat) (q : List Block),
+    QSorted q → QNonempty q → QDisj q → nonoverlapLoopG sort n q = nonoverlapLoop n q := by
+  intro n
+  induction n with
+  | zero => intro q _ _ _; rfl
+  | succ n ih =>
+    intro q hs hne hd
+    match q, hs, hne, hd with
+    | [], _, _, _ => rfl
+    | [b], _, _, _ => rfl
+    | b :: nxt :: rest, hs, hne, hd =>
+      have htail_s : QSorted (nxt :: rest) := (List.pairwise_cons.mp hs).2
+      have htail_n : QNonempty (nxt :: rest) := fun x hx => hne x (List.mem_cons_of_mem _ hx)
+      have htail_d : QDisj (nxt :: rest) := (List.pairwise_cons.mp hd).2
+      obtain ⟨hnq_d, hright_d⟩ := nextQueue_disj hd
+      -- the routine and `sortBlocks` agree on the queue with the right piece
+      have hsame : (splitBlock b (lo nxt) (hi nxt)).2.length > 1 →
+          sort ((splitBlock b (lo nxt) (hi nxt)).2 :: nxt :: rest) = sortBlocks ((splitBlock b (lo nxt) (hi nxt)).2 :: nxt :: rest) := by
+        intro hlen
+        apply sort_unique (hsort _).1 (hsort _).2 ?_ hright_d
+        intro x hx
+        rcases List.mem_cons.mp hx with rfl | hx
+        · intro he; rw [he] at hlen; simp at hlen
+        · exact htail_n x hx
+      have hq' : (if (splitBlock b (lo nxt) (hi nxt)).2.length > 1 then sort ((splitBlock b (lo nxt) (hi nxt)).2 :: nxt :: rest)
+          else nxt :: rest) = nextQueue b nxt rest := by
+        unfold nextQueue
+        split
+        · rename_i hlen; exact hsame hlen
+        · rfl
+      have ihq := ih (nextQueue b nxt rest) (nextQueue_sorted hs) (nextQueue_nonempty hne) hnq_d
+      have iht := ih (nxt :: rest) htail_s htail_n htail_d
+      rw [loop_step]
+      simp only [nonoverlapLoopG]
+      rw [hq', iht, ihq]
+      simp only [nextQueue]
+
+theorem nodup_map_inj {α β : Type} (f : α → β) : ∀ (l : List α), (l.map f).Nodup → ∀ x ∈ l, ∀ y ∈ l, f x = f y → x = y := by
+  intro l
+  induction l with
+  | nil => intro _ x hx; cases hx
+  | cons a t ih =>
+    intro hnd x hx y hy e
+    simp only [List.map_cons, List.nodup_cons, List.mem_map, not_exists, not_and] at hnd
+    rcases List.mem_cons.mp hx with rfl | hx' <;> rcases List.mem_cons.mp hy with rfl | hy'
+    · rfl
+    · exact absurd e.symm (hnd.1 y hy')
+    · exact absurd e (hnd.1 x hx')
+    · exact ih hnd.2 x hx' y hy' e
+
+/-- positions of the phased calls distinct ⇒ the blocks are pairwise disjoint -/
+theorem blocksOf_disj (ph : List (BlockId × Member)) (hnd : (ph.map (·.2.1)).Nodup) :
+    QDisj ((blocksOf ph).map (·.2)) := by
+  unfold QDisj blocksOf
+  rw [List.map_map, List.pairwise_map]
+  have hids := nodup_dedupIds (ph.map (·.1))
+  apply List.Pairwise.imp _ hids
+  intro id id' hne m hm n hn e
+  simp only [Function.comp, List.mem_map, List.mem_filter, beq_iff_eq] at hm hn
+  obtain ⟨x, ⟨hx, hxi⟩, rfl⟩ := hm
+  obtain ⟨y, ⟨hy, hyi⟩, rfl⟩ := hn
+  have : x = y := nodup_map_inj (fun (p : BlockId × Member) => p.2.1) ph hnd x hx y hy e
+  subst this
+  exact hne (hxi.symm.trans hyi)
+
+
+theorem positions_sublist (f : Flags) : ∀ (vars : List Var), ((phasedOf f vars).map (·.2.1)).Sublist (vars.map (·.pos)) := by
+  intro vars
+  unfold phasedOf considered
+  induction vars with
+  | nil => exact List.Sublist.slnil
+  | cons v t ih =>
+    simp only [List.filter_cons, List.map_cons]
+    split
+    · simp only [List.filterMap_cons]
+      cases hp : v.phase with
+      | none => simp only [Option.map_none]; exact ih.cons _
+      | some id => simp only [Option.map_some, List.map_cons]; exact ih.cons₂ _
+    · exact ih.cons _
+
+/-- the splitting loop gives the same pieces whatever sorting routine is used (in particular Python's stable
+`sorted(..., reverse=True)` read from the end): the blocks of a chromosome the reader delivered are pairwise disjoint, so no
+two blocks ever share a leftmost position -/
+theorem nonoverlapG_eq (sort : List Block → List Block) (hsort : IsSort sort) (blocks : List Block) (hd : QDisj blocks) :
+    nonoverlapG sort blocks = nonoverlap blocks := by
+  have hbd : QDisj (bigOf blocks) := List.Pairwise.filter _ hd
+  have hbn : QNonempty (bigOf blocks) := by
+    intro b hb he
+    have := (List.mem_filter.mp hb).2
+    rw [he] at this; simp at this
+  have hs : sort (bigOf blocks) = sortBlocks (bigOf blocks) := sort_unique (hsort _).1 (hsort _).2 hbn hbd
+  unfold nonoverlapG nonoverlap
+  rw [hs]
+  obtain ⟨h1, h2⟩ := bigOf_sorted_nonempty blocks
+  exact loopG_eq sort hsort _ _ h1 h2 (qdisj_perm (sortBlocks_perm _).symm hbd)
+
 end WhVerif.Lemmas.C12
